@@ -1,0 +1,71 @@
+//go:build verif
+
+package cli
+
+// Machine-checked contracts for package cli (comment-only; see klog/contracts_verif.go).
+
+// ---------------------------------------------------------------------------------------------
+// report.go — property C12: the report's rows partition the records.
+
+//@ spec rdate(r klog.Record) klog.Date = r.(*klog.record).date
+
+// hcnt(hp, rs, h, n): how many of the first n records fall into bucket h.
+//@ spec hcnt(hp func(klog.Date) period.Hash, rs []klog.Record, h period.Hash, n int) int = sum(k, 0, n, ite(hp(rdate(rs[k])) == h, 1, 0))
+// isFirst(hp, rs, i): record i is the first one of its bucket; fcnt counts those among the first n records.
+//@ spec isFirst(hp func(klog.Date) period.Hash, rs []klog.Record, i int) bool = hcnt(hp, rs, hp(rdate(rs[i])), i) == 0
+//@ spec fcnt(hp func(klog.Date) period.Hash, rs []klog.Record, n int) int = sum(k, 0, n, ite(isFirst(hp, rs, k), 1, 0))
+
+// groupByDate: for every bucket h the group days[h] consists of exactly the records whose date hashes to h — the
+// very same record objects, in their original order (the i-th record is the hcnt(i)-th element of its group, and
+// the group has hcnt(len(rs)) elements); a bucket is a key of the map exactly when it is non-empty. Hence every
+// record is in exactly one group. `order` lists the date of the first record of each bucket, in input order.
+//@ func groupByDate
+//@ requires forall(i, 0, len(rs), typeis(rs[i], *klog.record))
+//@ ensures forall(h, 0, 4294967296, len(result0[h]) == hcnt(hashProvider, rs, h, len(rs)))
+//@ ensures forall(h, 0, 4294967296, forall(i, 0, len(rs), implies(hashProvider(rdate(rs[i])) == h, hcnt(hashProvider, rs, h, i) < len(result0[h]) && result0[h][hcnt(hashProvider, rs, h, i)] == rs[i])))
+//@ ensures forall(h, 0, 4294967296, haskey(result0, h) == (hcnt(hashProvider, rs, h, len(rs)) > 0))
+//@ ensures len(result1) == fcnt(hashProvider, rs, len(rs))
+//@ ensures forall(i, 0, len(rs), 0 <= fcnt(hashProvider, rs, i) && fcnt(hashProvider, rs, i) <= len(result1) && implies(isFirst(hashProvider, rs, i), fcnt(hashProvider, rs, i) < len(result1) && result1[fcnt(hashProvider, rs, i)] == rdate(rs[i])))
+//@ loop 1 invariant nonnil(days)
+//@ loop 1 invariant forall(h, 0, 4294967296, haskey(days, h) == (hcnt(hashProvider, rs, h, rangeindex+1) > 0))
+//@ loop 1 invariant len(order) == fcnt(hashProvider, rs, rangeindex+1)
+//@ loop 1 invariant forall(i, 0, rangeindex+1, 0 <= fcnt(hashProvider, rs, i) && fcnt(hashProvider, rs, i) <= len(order) && implies(isFirst(hashProvider, rs, i), fcnt(hashProvider, rs, i) < len(order) && order[fcnt(hashProvider, rs, i)] == rdate(rs[i])))
+//@ loop 1 invariant forall(h, 0, 4294967296, len(days[h]) == hcnt(hashProvider, rs, h, rangeindex+1) && 0 <= hcnt(hashProvider, rs, h, rangeindex+1))
+//@ loop 1 invariant forall(h, 0, 4294967296, forall(i, 0, rangeindex+1, 0 <= hcnt(hashProvider, rs, h, i) && hcnt(hashProvider, rs, h, i) <= len(days[h]) && implies(hashProvider(rdate(rs[i])) == h, hcnt(hashProvider, rs, h, i) < len(days[h]) && days[h][hcnt(hashProvider, rs, h, i)] == rs[i])))
+
+// allDatesRange (--fill): the consecutive days from..to (at least `from` itself), each exactly one day after the
+// one before; the gaps it fills carry no records, so they contribute nothing (groupByDate has no group for them).
+//@ func allDatesRange
+//@ requires typeis(from, *klog.date) && typeis(to, *klog.date)
+//@ ensures len(result) == max(1, klog.ddn(to) - klog.ddn(from) + 1)
+//@ ensures forall(i, 0, len(result), typeis(result[i], *klog.date) && klog.ddn(result[i]) == klog.ddn(from) + i)
+//@ loop 1 invariant len(result) >= 1 && len(result) <= max(1, klog.ddn(to) - klog.ddn(from) + 1)
+//@ loop 1 invariant forall(i, 0, len(result), typeis(result[i], *klog.date) && klog.ddn(result[i]) == klog.ddn(from) + i)
+//@ loop 1 decreases klog.ddn(to) - klog.ddn(from) - len(result) + 1
+
+// ---------------------------------------------------------------------------------------------
+// today.go — splitIntoCurrentAndOther: the two result lists partition the records. With T = today's day number:
+// if any record is dated T, "current" is exactly the records dated T; otherwise, if any is dated T-1, exactly those
+// (and the flag is set); otherwise current is empty. Every other record is in "other"; nothing is dropped or duplicated
+// (counting scheme as in service.Filter: position of record i in its list is the number of earlier members).
+//@ spec dcnt(rs []klog.Record, d int, n int) int = sum(k, 0, n, ite(klog.ddn(rdate(rs[k])) == d, 1, 0))
+//@ spec ocnt(rs []klog.Record, d int, e int, n int) int = sum(k, 0, n, ite(klog.ddn(rdate(rs[k])) != d && klog.ddn(rdate(rs[k])) != e, 1, 0))
+//@ func splitIntoCurrentAndOther
+//@ requires forall(i, 0, len(records), typeis(records[i], *klog.record) && typeis(rdate(records[i]), *klog.date))
+//@ requires 0 <= gotime_year(now) && gotime_year(now) <= 9999 && dn(gotime_year(now), gotime_month(now), gotime_day(now)) >= 1
+//@ let T = dn(gotime_year(now), gotime_month(now), gotime_day(now))
+//@ let nT = dcnt(records, T, len(records))
+//@ let nY = dcnt(records, T - 1, len(records))
+//@ ensures len(result0) + len(result1) == len(records)
+//@ ensures result2 == (nT == 0 && nY > 0)
+//@ ensures len(result0) == ite(nT > 0, nT, nY)
+//@ ensures implies(nT > 0, forall(i, 0, len(records), implies(klog.ddn(rdate(records[i])) == T, result0[dcnt(records, T, i)] == records[i])))
+//@ ensures implies(nT == 0, forall(i, 0, len(records), implies(klog.ddn(rdate(records[i])) == T - 1, result0[dcnt(records, T - 1, i)] == records[i])))
+//@ ensures forall(i, 0, len(records), implies(klog.ddn(rdate(records[i])) != T && klog.ddn(rdate(records[i])) != T - 1, result1[ocnt(records, T, T - 1, i)] == records[i]))
+//@ ensures implies(nT > 0, forall(i, 0, len(records), implies(klog.ddn(rdate(records[i])) == T - 1, result1[ocnt(records, T, T - 1, len(records)) + dcnt(records, T - 1, i)] == records[i])))
+//@ loop 1 invariant typeis(today, *klog.date) && klog.ddn(today) == dn(gotime_year(now), gotime_month(now), gotime_day(now)) && typeis(yesterday, *klog.date) && klog.ddn(yesterday) == klog.ddn(today) - 1
+//@ loop 1 invariant dcnt(records, klog.ddn(today), rangeindex+1) + dcnt(records, klog.ddn(today) - 1, rangeindex+1) + ocnt(records, klog.ddn(today), klog.ddn(today) - 1, rangeindex+1) == rangeindex+1
+//@ loop 1 invariant len(todaysRecords) == dcnt(records, klog.ddn(today), rangeindex+1) && len(yesterdaysRecords) == dcnt(records, klog.ddn(today) - 1, rangeindex+1) && len(otherRecords) == ocnt(records, klog.ddn(today), klog.ddn(today) - 1, rangeindex+1)
+//@ loop 1 invariant forall(i, 0, rangeindex+1, 0 <= dcnt(records, klog.ddn(today), i) && dcnt(records, klog.ddn(today), i) <= len(todaysRecords) && implies(klog.ddn(rdate(records[i])) == klog.ddn(today), dcnt(records, klog.ddn(today), i) < len(todaysRecords) && todaysRecords[dcnt(records, klog.ddn(today), i)] == records[i]))
+//@ loop 1 invariant forall(i, 0, rangeindex+1, 0 <= dcnt(records, klog.ddn(today) - 1, i) && dcnt(records, klog.ddn(today) - 1, i) <= len(yesterdaysRecords) && implies(klog.ddn(rdate(records[i])) == klog.ddn(today) - 1, dcnt(records, klog.ddn(today) - 1, i) < len(yesterdaysRecords) && yesterdaysRecords[dcnt(records, klog.ddn(today) - 1, i)] == records[i]))
+//@ loop 1 invariant forall(i, 0, rangeindex+1, 0 <= ocnt(records, klog.ddn(today), klog.ddn(today) - 1, i) && ocnt(records, klog.ddn(today), klog.ddn(today) - 1, i) <= len(otherRecords) && implies(klog.ddn(rdate(records[i])) != klog.ddn(today) && klog.ddn(rdate(records[i])) != klog.ddn(today) - 1, ocnt(records, klog.ddn(today), klog.ddn(today) - 1, i) < len(otherRecords) && otherRecords[ocnt(records, klog.ddn(today), klog.ddn(today) - 1, i)] == records[i]))
